@@ -290,7 +290,8 @@ def run_cases(stem, imports, preamble, cases, chunk=400, timeout=900, header=Non
         if len(procs) >= NPROC:
             results += _collect(procs); procs = []
     results += _collect(procs)
-    shutil.rmtree(work, ignore_errors=True)
+    if not os.environ.get('VERIF_KEEP_WORK'):
+        shutil.rmtree(work, ignore_errors=True)
     return results
 
 
